@@ -217,8 +217,19 @@ let lcs_len eq l r =
   done;
   (!c).(n)
 
-(* the clauses of C11 on a script given as values, with the places its X and Y alias *)
-let check_script eq l r (parsed : (int M.edit * string * string) list) =
+(* an upper bound of the LCS length under plain equality: the number of elements the two inputs
+   share as multisets (sum over the values of the smaller count) *)
+let shared_bound (l : int list) (r : int list) =
+  let t : (int, int) Hashtbl.t = Hashtbl.create 4096 in
+  List.iter (fun v -> Hashtbl.replace t v (1 + (try Hashtbl.find t v with Not_found -> 0))) l;
+  List.fold_left (fun n v ->
+    match Hashtbl.find_opt t v with
+    | Some c when c > 0 -> Hashtbl.replace t v (c - 1); n + 1
+    | _ -> n) 0 r
+
+(* the clauses of C11 on a script given as values, with the places its X and Y alias;
+   plain: eq is equality of codes (the multiset bound applies) *)
+let check_script ?(plain = false) eq l r (parsed : (int M.edit * string * string) list) =
   let es = List.map (fun (e, _, _) -> e) parsed in
   let same (a : int) (b : int) = (a = b) in
   if not (M.valid_script_gen eq same l r es) then
@@ -236,7 +247,11 @@ let check_script eq l r (parsed : (int M.edit * string * string) list) =
     if (es = []) <> same_inputs then
       Some (if es = [] then "empty script although lhs and rhs differ" else "non-empty script although lhs equals rhs")
     else begin
-      let k = int_of_nat (M.kept (M.expand l es)) and opt = lcs_len eq l r in
+      let k = int_of_nat (M.kept (M.expand l es)) in
+      (* the script is valid, so the k elements it keeps are a common subsequence: an LCS has at
+         least k.  Under plain equality none is longer than what the inputs share as multisets; when
+         k reaches that bound (constructed large inputs, round 6) the table is not needed *)
+      let opt = if plain && shared_bound l r = k then k else lcs_len eq l r in
       if k <> opt then Some (Printf.sprintf "script keeps %d elements, a longest common subsequence has %d" k opt)
       else begin
         let c = int_of_nat (M.cost (M.expand l es)) in
@@ -278,7 +293,7 @@ let spec_l (q : lline) out =
       let py = if q.same then poison_l else poison_r in
       if xs2 <> seq (List.map (fun v -> v + poison_l) allx) || ys2 <> seq (List.map (fun v -> v + py) ally) then
         raise (Bad "after the inputs were overwritten the script does not show their new contents (it does not share storage with them)");
-      check_script (eq_for q.mode) q.l q.r parsed
+      check_script ~plain:(q.mode = 0) (eq_for q.mode) q.l q.r parsed
     with Bad m -> Some m)
   | _ -> Some "bad output syntax"
 
